@@ -222,6 +222,7 @@ main (void)
           unsigned char mac[64];
           size_t macl = 0, B = 64;
           const char *halg = a0;
+          int gost_ctxzero = -1;
           if (!strcmp (a0, "sha1"))
             {
               hmac_sha1_process_data (m2, (size_t) ml, m1, (size_t) kl, mac);
@@ -235,11 +236,20 @@ main (void)
           else
             {
               gost_hmac_256_t gb;
+              memset (&gb, 0xa5, sizeof gb);
               gost_hmac256 (m1, (size_t) kl, m2, (size_t) ml, mac, &gb);
               macl = 32;
               halg = "gost256";
+              /* the caller's work area held the key, both pads and the inner digest: all of it is erased on return */
+              gost_ctxzero = 1;
+              for (size_t i = 0; i < sizeof gb; i++)
+                if (((unsigned char *) &gb)[i])
+                  gost_ctxzero = 0;
             }
-          fprintf (out, "{\"e\":\"hmac\",\"alg\":\"%s\",\"key\":", a0);
+          fprintf (out, "{\"e\":\"hmac\",\"alg\":\"%s\"", a0);
+          if (gost_ctxzero >= 0)
+            fprintf (out, ",\"ctxzero\":%d", gost_ctxzero);
+          fprintf (out, ",\"key\":");
           jarr (m1, (size_t) kl);
           fprintf (out, ",\"msg\":");
           jarr (m2, (size_t) ml);
